@@ -1,5 +1,6 @@
 """C03 - every outbound payment reaches a truthful terminal outcome (structural part)."""
 from engine import *
+import obligations
 import ordimpls
 import provenance
 
@@ -404,3 +405,4 @@ RULES = [
 	('03.y', 'no reviewed function gained a swallowed error (the Result of a fallible in-crate call dropped; rules/provenance.py)', lambda F: provenance.dr_for_property(F, 'C03', '03.y')),
 	('03.o', 'hand-written eq / cmp / partial_cmp / hash impls in this property\'s files: same field on both sides, reviewed direction, no reviewed key lost, hash within eq (rules/ordimpls.py)', lambda F: ordimpls.for_property(F, 'C03', '03.o')),
 ]
+RULES.append(('03.u', 'obligation-carrying values returned by workspace calls (to-fail HTLC lists, monitor updates, events, peer messages, claim packages) are never dropped on a path that does not examine them (rules/obligations.py)', lambda F: obligations.for_property(F, 'C03', '03.u')))
